@@ -62,6 +62,17 @@ func genC04(r *Rand, i int, thor bool) J2KCase {
 	k.Layers = r.Pick(1, 1, 1, 2, 3, 4, 5, 6)
 	k.MCT = r.Bool()
 	k.Content = r.Pick(0, 0, 0, 1, 2, 3, 4, 5)
+	if r.Intn(25) == 0 {
+		// many layers on a tiny image: code-blocks first included in a very late layer
+		// (inclusion tag-tree values around and above 999, up to the 65535 layers accepted)
+		k.W, k.H = r.Range(1, 16), r.Range(1, 16)
+		k.Layers = r.Pick(998, 999, 1000, 1001, 1024, 2000, 5000)
+		if thor && r.Intn(8) == 0 {
+			k.Layers = r.Pick(20000, 65535)
+		}
+		k.Comps = r.Range(1, 2)
+		manyPackets = false
+	}
 	if manyPackets {
 		// many packets per image (small code-blocks and precincts, several layers, noise) so
 		// that rare packet-header byte patterns (e.g. a header ending in 0xFF) are reached
@@ -92,7 +103,7 @@ func sigC04(prefix string, k J2KCase, site string) string {
 }
 
 func runC04(c *Ctx) {
-	c.R.Rule = "random single-tile reversible configurations over the property's space (size classes: 1..40 grid, around code-block multiples, tiny, random to 150/600; comps 1-4; P 1-16; signed; levels 0-6; cb 4..64; precincts {0,32..256}; 5 progressions; layers 1-6; MCT); non-trivial = content not constant and more than one sample; distinct by full configuration + content seed"
+	c.R.Rule = "random single-tile reversible configurations over the property's space (size classes: 1..40 grid, around code-block multiples, tiny, random to 150/600; comps 1-4; P 1-16; signed; levels 0-6; cb 4..64; precincts {0,32..256}; 5 progressions; layers 1-6 and a many-layers class 998..5000 (65535 thorough); MCT); non-trivial = content not constant and more than one sample; distinct by full configuration + content seed"
 	n := c.N(700, 12000)
 	rng := c.Rng.Fork()
 	cases := make([]J2KCase, n)
